@@ -378,6 +378,48 @@ def RepAtG (g : Bytes → Option Val) (m : Spec) (p : Bytes) : Prop :=
 /-- the db encodes the map `m` (for primary keys that do not contain the '-' separator). -/
 def Rep (db : TDB) (m : Spec) : Prop := ∀ p, NoSep p → RepAtG (get db) m p
 
+/-- what has been buffered for a key that was stored at the last save. -/
+inductive Flag where
+  | fresh | written | deleted
+  deriving DecidableEq, Repr
+
+/-- the operation sequences the row cache merges correctly, described on the map side only
+(`m0` = the map at the last save, `fl` = what has been buffered per key since then): for a key that
+was NOT stored at the last save anything goes; for a stored key there is no operation after a
+buffered Del and no Del after a buffered Update/Replace.  `none` = the sequence leaves the class. -/
+def goodStep (m0 : Spec) (fl : Bytes → Flag) (op : Op) : Option (Bytes → Flag) :=
+  match m0 op.pk with
+  | none => some fl
+  | some _ =>
+    match fl op.pk with
+    | .deleted => none
+    | .written =>
+      (match op with
+       | .del _ => none
+       | _ => some fl)
+    | .fresh =>
+      (match op with
+       | .add _ => some fl
+       | .replace _ => some (fun p => if p = op.pk then .written else fl p)
+       | .update _ => some (fun p => if p = op.pk then .written else fl p)
+       | .del _ => some (fun p => if p = op.pk then .deleted else fl p))
+
+def GoodRun (m0 : Spec) : (Bytes → Flag) → List Op → Prop
+  | _, [] => True
+  | fl, op :: rest =>
+    match goodStep m0 fl op with
+    | none => False
+    | some fl' => GoodRun m0 fl' rest
+
+instance decGoodRun (m0 : Spec) : (fl : Bytes → Flag) → (ops : List Op) → Decidable (GoodRun m0 fl ops)
+  | _, [] => isTrue trivial
+  | fl, op :: rest =>
+    match h : goodStep m0 fl op with
+    | none => isFalse (by simp [GoodRun, h])
+    | some fl' =>
+      have := decGoodRun m0 fl' rest
+      decidable_of_iff (GoodRun m0 fl' rest) (by simp [GoodRun, h])
+
 /-- every record of the db is a data record or an index record (holding the primary key) of a
 non-empty primary key without the separator — what `Save` writes. -/
 def Shape (db : TDB) : Prop :=
